@@ -1,6 +1,6 @@
 SPECIFICATION TraceSpec
 CONSTANTS Malformed = "ascoded"
- ApiErr = "ascoded"
+ ApiErr = "strict"
  Variant = "none"
 CONSTRAINT Mark
 POSTCONDITION Report
